@@ -7,8 +7,8 @@
      snd ck = oracle: every observed transition is the one Exec.Sem.sem_step prescribes (computed from
                       Sem alone; the oracle keeps its own Sem state).  It is silent (true) from the
                       first configuration on that lies outside the property's premises: program not
-                      well formed, state ill typed, successor choice not determined (det_at), store
-                      reaching the top of the address space, branch target outside the program. *)
+                      well formed, state ill typed, successor choice not determined (det_at), memory
+                      range wrapping past 2^64, branch target outside the program. *)
 From Coq Require Import ZArith List Bool NArith.
 From Falcon Require Import Base.Res IL.Const IL.Expr IL.Func IL.Loc Exec.Sem Exec.State Exec.Driver Exec.DriverSpec.
 Import ListNotations.
